@@ -130,3 +130,20 @@ VDECLN(nsB, mfuse::SimpleEntity, E0)
     VR(E0, ev_size_s, 1)
     VEND
 };
+
+// pure inheritors of the library's own classes: they declare nothing, so every command of the
+// parent - in particular the one holding the highest (and the lowest) event number of the
+// registry - must reach the parent's handler through the inherited table
+VCLASS(XParm, mfuse::Parm)
+VCLASS(XGame, mfuse::Game)
+VCLASS(XLevel, mfuse::Level)
+VCLASS(XMutex, mfuse::ScriptMutex)
+VCLASS(XEnt, mfuse::SimpleEntity)
+VCLASS(XEnt2, XEnt)
+
+VDECL(mfuse::Parm, XParm) { VEND };
+VDECL(mfuse::Game, XGame) { VEND };
+VDECL(mfuse::Level, XLevel) { VEND };
+VDECL(mfuse::ScriptMutex, XMutex) { VEND };
+VDECL(mfuse::SimpleEntity, XEnt) { VEND };
+VDECL(XEnt, XEnt2) { VEND };
